@@ -29,9 +29,32 @@ def exc_kind(ex):
     return type(ex).__name__
 
 
-def run(fn, show):
+class Hang(BaseException):
+    """raised inside a watched call that did not return in time (BaseException: not swallowed by `except Exception`)"""
+
+
+def watched(fn, seconds=5.0):
+    """run fn() under a per-call watchdog (SIGALRM interval timer; pure-Python loops are interruptible).
+    A call that does not return within `seconds` raises Hang in the caller — the property says the
+    result exists, so a hang is reported by the callers as a failing input, not as an infrastructure timeout."""
+    import signal
+
+    def on_alarm(signum, frame):
+        raise Hang()
+    old = signal.signal(signal.SIGALRM, on_alarm)
+    signal.setitimer(signal.ITIMER_REAL, seconds)
     try:
-        return "ok " + show(fn())
+        return fn()
+    finally:
+        signal.setitimer(signal.ITIMER_REAL, 0)
+        signal.signal(signal.SIGALRM, old)
+
+
+def run(fn, show, watchdog=None):
+    try:
+        return "ok " + show(watched(fn, watchdog) if watchdog else fn())
+    except Hang:
+        return "hang"
     except Exception as ex:            # the kind that escapes is part of the comparison
         return "err " + exc_kind(ex)
 
@@ -90,6 +113,12 @@ def t_wire(x):
     if isinstance(x, datetime.datetime):
         return "%s %d %d %d %d %d %d %d" % (kind_of(x), x.year, x.month, x.day, x.hour, x.minute, x.second, x.microsecond)
     return "d %d %d %d 0 0 0 0" % (x.year, x.month, x.day)
+
+
+def t_show(x):
+    """canonical form of a RESULT: the wire form, plus a marker if fold is set (the model has no fold bit,
+    so a result with fold=1 shows up as a correspondence mismatch)"""
+    return t_wire(x) + (" fold=1" if getattr(x, "fold", 0) else "")
 
 
 def parse_t(tokens):
@@ -270,5 +299,5 @@ def g_temporal(rng, kinds=("d", "n", "a")):
         return datetime.date(y, m, d)
     hh, mm, ss, us = g_time(rng)
     tz = None if k == "n" else rng.choice(zones())
-    fold = 1 if rng.random() < 0.05 else 0
+    fold = 1 if rng.random() < 0.15 else 0
     return datetime.datetime(y, m, d, hh, mm, ss, us, tzinfo=tz, fold=fold)
